@@ -76,5 +76,7 @@ fn subchecks(ctx: &Ctx) -> Vec<SubCheck> {
     v.extend(surface::subchecks(ctx));
     // every slim-margin prefix of the reciprocal's Newton refinement (see recip.rs)
     v.push(SubCheck::new("limb/reciprocal-newton-margins", 6_000, recip::newton_margins).tape(16).thorough(4));
+    // exact multiples with a quotient close to 2^64: the second div2by1 correction with r == d (see recip.rs)
+    v.push(SubCheck::new("limb/exact-multiples-second-correction", 6_000, recip::exact_multiples).tape(400).thorough(8));
     v
 }
